@@ -171,6 +171,14 @@ func (s *Server) lockContractForRevision(contractID types.FileContractID) (Revis
 	return rs, unlock, nil
 }
 
+// revisableAtTip reports whether consensus still accepts a revision of fc in
+// the next block. A contract is checked when it is locked, but the renter
+// decides how long a multi-round RPC takes: a block may have been added to
+// the chain while the handler was waiting for the renter's signature.
+func (s *Server) revisableAtTip(fc types.V2FileContract) bool {
+	return s.chain.Tip().Height < fc.ProofHeight
+}
+
 func (s *Server) handleRPCSettings(stream net.Conn) error {
 	settings := s.settings.RHP4Settings()
 	settings.ProtocolVersion = protocolVersion
@@ -318,6 +326,9 @@ func (s *Server) handleRPCFreeSectors(stream net.Conn) error {
 	if err := rhp4.ReadResponse(stream, &renterSigResponse); err != nil {
 		return errorDecodingError("failed to read renter signature response: %v", err)
 	}
+	if !s.revisableAtTip(existing) {
+		return errorBadRequest("contract is not revisable")
+	}
 
 	revision, usage, err := rhp4.ReviseForFreeSectors(existing, prices, resp.NewMerkleRoot, len(req.Indices))
 	if err != nil {
@@ -400,6 +411,9 @@ func (s *Server) handleRPCAppendSectors(stream net.Conn) error {
 		return errorDecodingError("failed to read renter signature response: %v", err)
 	} else if !existing.RenterPublicKey.VerifyHash(sigHash, renterSigResponse.RenterSignature) {
 		return rhp4.ErrInvalidSignature
+	}
+	if !s.revisableAtTip(existing) {
+		return errorBadRequest("contract is not revisable")
 	}
 
 	revision.RenterSignature = renterSigResponse.RenterSignature
@@ -517,6 +531,9 @@ func (s *Server) handleRPCReplenishAccounts(stream net.Conn) error {
 	if err := rhp4.ReadResponse(stream, &renterSigResp); err != nil {
 		return errorDecodingError("failed to read renter signature response: %v", err)
 	}
+	if !s.revisableAtTip(existing) {
+		return errorBadRequest("contract is not revisable")
+	}
 
 	sigHash := s.chain.TipState().ContractSigHash(revision)
 	if !revision.RenterPublicKey.VerifyHash(sigHash, renterSigResp.RenterSignature) {
@@ -592,6 +609,9 @@ func (s *Server) handleRPCReplenishPools(stream net.Conn) error {
 	var renterSigResp rhp4.RPCReplenishAccountsSecondResponse
 	if err := rhp4.ReadResponse(stream, &renterSigResp); err != nil {
 		return errorDecodingError("failed to read renter signature response: %v", err)
+	}
+	if !s.revisableAtTip(existing) {
+		return errorBadRequest("contract is not revisable")
 	}
 
 	sigHash := s.chain.TipState().ContractSigHash(revision)
